@@ -41,7 +41,7 @@ def gen_kinst(rng, nmin=2, nmax=10, m=0, labelled=False, kinds=("feat", "lattice
             # all distances tiny: around the 1e-5 density-bound threshold and far below it
             alphabet = [v * 10.0 ** rng.choice([-4, -5, -6, -8, -12]) for v in alphabet]
         return KInst("mat", None, gen_matrix(rng, N, alphabet), n, m, None, labels)
-    metric = rng.choice(PLAIN_METRICS + (POS_METRICS if kind == "feat" else []))
+    metric = rng.choice(PLAIN_METRICS + (POS_METRICS if (kind == "feat" or (kind == "lattice" and rng.random() < 0.4)) else []))
     if kind == "outlier":
         metric = rng.choice(["euclidean", "manhattan", "squared_euclidean", "chebyshev"])
     pos = metric in POS_METRICS
@@ -63,6 +63,8 @@ def gen_kinst(rng, nmin=2, nmax=10, m=0, labelled=False, kinds=("feat", "lattice
             X[rng.randrange(n)] = [10.0 ** rng.choice([3, 4, 5]) for _ in range(dim)]
         else:
             X = [[(rng.random() * 9 + 0.5) if pos else (rng.random() * 20 - 10) for _ in range(dim)] for _ in range(N)]
+            if pos and dim >= 2 and rng.random() < 0.5:
+                X = [[0.0 if rng.random() < 0.3 else v for v in r] for r in X]      # sparse non-negative rows
             for i in range(n, N):
                 if rng.random() < 0.35:
                     X[i] = list(X[rng.randrange(n)])
